@@ -22,7 +22,10 @@ def regime(n: int, values):
     scale = float(sum(abs(fv[1 << i]) for i in range(n)) + abs(fv[-1]))
     s = abs(float(surplus))
     if surplus == 0 or s <= 64 * EPS * scale:
-        return "additive", None, 1e-9
+        # "identically 0" up to rounding: when v(N) - sum v(i) is exactly 0 the library leaves the zero-normalised values
+        # v(S) - sum_{i in S} v(i) undivided, and for a game that is additive only up to rounding these are residues of a
+        # few ulp OF THE VALUES - the slack therefore scales with the magnitude of the game
+        return "additive", None, 1e-9 * max(1.0, scale)
     tau = 1e-9 + 1e3 * EPS * scale / s
     if tau <= 1e-3:
         return "regular", norm, tau
